@@ -8,6 +8,25 @@ VF_NOTE = ("Trusted: Coq kernel, extraction, harness/vf.c (page table and refere
            "The byte-level page search/bisection is abstracted to its result on the page table (validated by the tie on every run, not proved). "
            "Print Assumptions: closed under the global context.")
 CHECKS = {
+ "C19": {
+  "category": "proof",
+  "text": "Proved (Overlap.v): vorbis_synthesis_lapout exposes contiguously, in order and inside the buffer exactly what a read would have returned next "
+          "followed by the unwindowed second half of the last block (all four window transitions, both buffer phases); the splice touches only the first "
+          "min(n1,n2) cells. Per run, on twin handles with identical call histories: same return code and landing as the plain seek, bit-identical from "
+          "min(n1,n2) samples on, inside = new*w^2+old*(1-w^2) (bit-exact where the cells were final), EOF-without-lapping only when nothing follows in the "
+          "landing link or there is no decode state. One recorded KNOWN-FINDING (splice before overlap-add).",
+  "note": VF_NOTE + " The cross-fade arithmetic is float and is compared with the same expression evaluated on two plain decodes.",
+  "technique": "Coq proof (lapout index arithmetic, case analysis) + twin-handle differential oracle on real lapped seeks",
+ },
+ "C20": {
+  "category": "proof",
+  "text": "Proved: a link of N samples yields ceil(N/2) under half-rate (Blocking.v, all block sizes divisible by 8, all window sequences); positions advance "
+          "by two per sample; switching on is refused with the state untouched when a link has 64-sample blocks; totals unchanged; link tables are never modified by any op. "
+          "Per run: ov_halfrate toggled at random points of seek/read histories, every op compared with VFile.v and every read bit for bit with a packet-level decode "
+          "that had the setting from the start; final linear read counts ceil(N/2) per link.",
+  "note": VF_NOTE + " Streams whose beginning is trimmed by an odd count (all positions on the odd grid) are excluded from this check.",
+  "technique": "Coq proof (count by induction over blocks; model invariants) + correspondence of toggling histories vs lib/vorbisfile.c",
+ },
  "C07": {
   "category": "proof",
   "text": "VFile.v models vorbisfile's position bookkeeping (link table, fetch/process, reads, raw/page/sample seeks) on the page table, with the decoder "
